@@ -2312,3 +2312,575 @@ func ruleC17SortKey(c *ctx.Ctx, r *core.Reporter) {
 	}
 	r.Check(physical >= 1 && adjusted == "", "sort-key:physical-name", c.Pos(sortFd.Pos()), "files are compared by token.File.Name()"+ternary(adjusted != "", " (found `"+adjusted+"`: the adjusted position takes its file name from //line directives, so two files can tie and keep their listing order)", ""))
 }
+
+// ruleC10ExportedReference: other packages reach an exported function through `$pkg.<Name>`. A body-less
+// function that is a go:linkname reference gets its value late, in $initLinknames; that is also the only
+// place where `$pkg.<Name>` can be given the value (the declaration emitted no export for a function
+// without a body).
+func ruleC10ExportedReference(c *ctx.Ctx, r *core.Reporter) {
+	r.Begin("C10.exported-reference", "F-PAIR", "where WritePkgCode binds a go:linkname reference from $linknames it also assigns the function to $pkg.<Name> when the name is exported", 1)
+	fd := c.FuncDecl("compiler", "WritePkgCode")
+	if fd == nil {
+		r.Undecided("WritePkgCode", "compiler/compiler.go", "not found")
+		return
+	}
+	// the loop body that emits `<ref> = $linknames[<impl>];`
+	var loop *ast.RangeStmt
+	ast.Inspect(fd.Body, func(x ast.Node) bool {
+		if rs, ok := x.(*ast.RangeStmt); ok {
+			found := false
+			ast.Inspect(rs.Body, func(y ast.Node) bool {
+				if bl, ok := y.(*ast.BasicLit); ok && strings.Contains(bl.Value, "= $linknames[") {
+					found = true
+				}
+				return true
+			})
+			if found {
+				loop = rs
+			}
+		}
+		return true
+	})
+	if loop == nil {
+		r.Undecided("bind-loop", c.Pos(fd.Pos()), "the loop that emits `<ref> = $linknames[…]` was not found")
+		return
+	}
+	exports := false
+	ast.Inspect(loop.Body, func(x ast.Node) bool {
+		is, ok := x.(*ast.IfStmt)
+		if !ok {
+			return true
+		}
+		cond := exprStr(is.Cond)
+		if !(strings.Contains(cond, "IsExported(") || strings.Contains(cond, ".Exported()")) {
+			return true
+		}
+		ast.Inspect(is.Body, func(y ast.Node) bool {
+			if bl, ok := y.(*ast.BasicLit); ok && strings.Contains(bl.Value, "$pkg.%s = %s;") {
+				exports = true
+			}
+			return true
+		})
+		return true
+	})
+	r.Check(exports, "bound-reference-exported", c.Pos(loop.Pos()), "next to `<ref> = $linknames[<impl>];` the loop emits `$pkg.<Name> = <ref>;` under an exportedness test: without it `otherpkg.Exported(…)` of a body-less linkname reference is `undefined` (TypeError: sub.Exported is not a function)")
+}
+
+// ruleDelegatedArgs: `defer f(x)` / `go f(x)` evaluate the arguments at the statement, not when the call runs.
+// For builtins and js.Object methods the call is wrapped in a proxy lambda; every argument of the wrapped
+// call has to be a parameter of the lambda (bound to the value computed at the statement) — an argument
+// expression used directly would be read when the lambda runs.
+func ruleDelegatedArgs(c *ctx.Ctx, r *core.Reporter) {
+	r.Begin("C08.delegated-args", "F-MUST", "in delegatedCall every argument of the wrapped builtin call is a fresh identifier naming a parameter of the proxy lambda", 1)
+	fd := c.FuncDecl("compiler", "funcContext.delegatedCall")
+	if fd == nil {
+		r.Undecided("delegatedCall", "compiler/expressions.go", "not found")
+		return
+	}
+	// the slice handed to the wrapper call as Args
+	argsVar := ""
+	for _, m := range findGoPattern(fd.Body, `&ast.CallExpr{Fun: µf, Args: µa, Ellipsis: µe}`) {
+		argsVar = m.Env["µa"]
+	}
+	if argsVar == "" {
+		r.Undecided("wrapper", c.Pos(fd.Pos()), "the wrapper &ast.CallExpr{Fun, Args, Ellipsis} was not found")
+		return
+	}
+	n, good := 0, 0
+	bad := ""
+	ast.Inspect(fd.Body, func(x ast.Node) bool {
+		as, ok := x.(*ast.AssignStmt)
+		if !ok || len(as.Lhs) != 1 || len(as.Rhs) != 1 {
+			return true
+		}
+		ix, ok := as.Lhs[0].(*ast.IndexExpr)
+		if !ok || exprStr(ix.X) != argsVar {
+			return true
+		}
+		n++
+		env := patEnv{}
+		if matchExprPat(compileGoPattern(`µfc.newIdent(µv, µt)`).expr, as.Rhs[0], env) {
+			// µv is a local obtained from newLocalVariable
+			fresh := false
+			for _, d := range localAssignments(fd, env["µv"]) {
+				if ce, ok := d.rhs.(*ast.CallExpr); ok {
+					if se, ok := ce.Fun.(*ast.SelectorExpr); ok && se.Sel.Name == "newLocalVariable" {
+						fresh = true
+					}
+				}
+			}
+			if fresh {
+				good++
+				return true
+			}
+		}
+		bad = nodeString(c, as)
+		return true
+	})
+	r.Check(n >= 1 && good == n, "args-are-lambda-parameters", c.Pos(fd.Pos()), fmt.Sprintf("%d of %d stores into the wrapped call's argument list are fc.newIdent(<fresh _arg>, <parameter type>)%s", good, n, ternary(bad != "", " — `"+bad+"` hands the argument expression itself to the lambda: `defer println(x); x = 2` prints 2", "")))
+}
+
+// ruleC18ToolTags: the tag set of the property has no tool tags: go/build's defaults for the HOST toolchain
+// (goexperiment.*, amd64.v1) must not be satisfied when files are selected for js/ecmascript.
+func ruleC18ToolTags(c *ctx.Ctx, r *core.Reporter) {
+	r.Begin("C18.tooltags", "F-TABLE", "no build context of package build carries tool tags, and versionhack empties go/build's defaults", 2)
+	p := c.Pkg("build")
+	if p == nil {
+		r.Undecided("pkg", "build", "not loaded")
+		return
+	}
+	n := 0
+	for _, f := range p.Syntax {
+		if c.IsTestFile(f.Pos()) {
+			continue
+		}
+		ast.Inspect(f, func(x ast.Node) bool {
+			cl, ok := x.(*ast.CompositeLit)
+			if !ok || exprStr(cl.Type) != "build.Context" {
+				return true
+			}
+			n++
+			set := ""
+			for _, el := range cl.Elts {
+				if kv, ok := el.(*ast.KeyValueExpr); ok && exprStr(kv.Key) == "ToolTags" {
+					v := exprStr(kv.Value)
+					if v != "nil" && v != "[]string{}" {
+						set = v
+					}
+				}
+			}
+			r.Check(set == "", fmt.Sprintf("context:ToolTags#%d", n), c.Pos(cl.Pos()), "the build.Context literal leaves ToolTags empty"+ternary(set != "", " (found `"+set+"`: the host's goexperiment.* and GOAMD64 tags become satisfied build constraints)", ""))
+			return true
+		})
+	}
+	r.Check(n >= 1, "contexts", "build/context.go", fmt.Sprintf("%d build.Context literal(s)", n))
+	vh := c.Pkg("build/versionhack")
+	if vh == nil {
+		r.Undecided("versionhack", "build/versionhack", "not loaded")
+		return
+	}
+	cleared := false
+	for _, f := range vh.Syntax {
+		for _, d := range f.Decls {
+			if fd, ok := d.(*ast.FuncDecl); ok && fd.Name.Name == "init" && fd.Body != nil {
+				if hasGoPattern(fd.Body, `build.Default.ToolTags = []string{}`) || hasGoPattern(fd.Body, `build.Default.ToolTags = nil`) {
+					cleared = true
+				}
+			}
+		}
+	}
+	r.Check(cleared, "versionhack:tooltags-cleared", "build/versionhack/versionhack.go", "versionhack's init empties build.Default.ToolTags (contexts derived from the default, and go/build's own module-mode check, see no host tool tags)")
+}
+
+// ruleC20MonotoneModTime: PackageData.SrcModTime is a lower bound for "is the cached archive stale": it is
+// only ever raised. BuildFiles presets it to the future for the ephemeral package of a `gopherjs build a.go`
+// so that it is never taken from the cache; LoadPackages must not lower it.
+func ruleC20MonotoneModTime(c *ctx.Ctx, r *core.Reporter) {
+	r.Begin("C20.modtime-monotone", "F-MUST", "every assignment to SrcModTime in Session.LoadPackages raises it: it is guarded by <new>.After(<pkg>.SrcModTime)", 3)
+	fd := c.FuncDecl("build", "Session.LoadPackages")
+	if fd == nil {
+		r.Undecided("LoadPackages", "build/build.go", "not found")
+		return
+	}
+	n := 0
+	ast.Inspect(fd.Body, func(x ast.Node) bool {
+		as, ok := x.(*ast.AssignStmt)
+		if !ok || len(as.Lhs) != 1 || len(as.Rhs) != 1 {
+			return true
+		}
+		se, ok := as.Lhs[0].(*ast.SelectorExpr)
+		if !ok || se.Sel.Name != "SrcModTime" {
+			return true
+		}
+		n++
+		guarded := false
+		for _, g := range guardsAt(fd.Body, as.Pos()) {
+			if g.Negated {
+				continue
+			}
+			for _, cj := range conjuncts(g.Cond) {
+				if ce, ok := cj.(*ast.CallExpr); ok && len(ce.Args) == 1 && exprStr(ce.Args[0]) == exprStr(as.Lhs[0]) {
+					if f, ok := ce.Fun.(*ast.SelectorExpr); ok && f.Sel.Name == "After" && exprStr(f.X) == exprStr(as.Rhs[0]) {
+						guarded = true
+					}
+				}
+			}
+		}
+		r.Check(guarded, fmt.Sprintf("raise-only#%d", n), c.Pos(as.Pos()), fmt.Sprintf("`%s` is executed only if %s.After(%s)%s", nodeString(c, as), exprStr(as.Rhs[0]), exprStr(as.Lhs[0]), ternary(guarded, "", " — an unconditional store discards the future time BuildFiles presets for the ephemeral main package, which is then served from the cache of an earlier `gopherjs build other.go`")))
+		return true
+	})
+	r.Check(n >= 3, "sites", c.Pos(fd.Pos()), fmt.Sprintf("%d assignments to SrcModTime (compiler binary, imports, own files)", n))
+}
+
+// ruleBlockingOnlyGrows: the blocking analysis is a least fixpoint over "this node suspends": marks are only
+// added. A function without a body is marked when its FuncInfo is made, and which implementations suspend
+// is only known after propagation — nothing may clear or replace a Blocking set.
+func ruleBlockingOnlyGrows(c *ctx.Ctx, r *core.Reporter) {
+	r.Begin("C02.blocking-grows", "F-WHO", "in package analysis the Blocking and Flattened sets are created once per FuncInfo and afterwards only receive `true` entries: no replacement, no delete, no `false`", 4)
+	p := c.Pkg("compiler/internal/analysis")
+	if p == nil {
+		r.Undecided("pkg", "compiler/internal/analysis", "not loaded")
+		return
+	}
+	n := 0
+	for _, rel := range []string{"compiler/internal/analysis", "compiler/sources", "compiler"} {
+		for _, fd := range c.AllFuncDecls(rel) {
+			if fd.Body == nil || c.IsTestFile(fd.Pos()) {
+				continue
+			}
+			ast.Inspect(fd.Body, func(x ast.Node) bool {
+				switch s := x.(type) {
+				case *ast.AssignStmt:
+					for i, l := range s.Lhs {
+						// x.Blocking = …   (replacing the set)
+						if se, ok := l.(*ast.SelectorExpr); ok && (se.Sel.Name == "Blocking" || se.Sel.Name == "Flattened") && isFuncInfoField(c, rel, se) {
+							n++
+							r.Violation(fmt.Sprintf("replace:%s|%s#%d", rel, ctx.FuncName(fd), n), c.Pos(s.Pos()), "`"+nodeString(c, s)+"` replaces a "+se.Sel.Name+" set outside the FuncInfo constructor: marks made so far (a body-less function is conservatively blocking) are lost before propagation has run")
+						}
+						// x.Blocking[k] = v
+						if ix, ok := l.(*ast.IndexExpr); ok {
+							if se, ok := ix.X.(*ast.SelectorExpr); ok && (se.Sel.Name == "Blocking" || se.Sel.Name == "Flattened") && isFuncInfoField(c, rel, se) && i < len(s.Rhs) {
+								n++
+								r.Check(exprStr(s.Rhs[i]) == "true", fmt.Sprintf("mark:%s|%s#%d", rel, ctx.FuncName(fd), n), c.Pos(s.Pos()), "`"+nodeString(c, s)+"` adds a mark")
+							}
+						}
+					}
+				case *ast.CallExpr:
+					if id, ok := s.Fun.(*ast.Ident); ok && id.Name == "delete" && len(s.Args) == 2 {
+						if se, ok := s.Args[0].(*ast.SelectorExpr); ok && (se.Sel.Name == "Blocking" || se.Sel.Name == "Flattened") && isFuncInfoField(c, rel, se) {
+							n++
+							r.Violation(fmt.Sprintf("delete:%s|%s#%d", rel, ctx.FuncName(fd), n), c.Pos(s.Pos()), "`"+exprStr(s)+"` removes a mark")
+						}
+					}
+				}
+				return true
+			})
+		}
+	}
+	r.Check(n >= 4, "sites", "compiler/internal/analysis/info.go", fmt.Sprintf("%d writes to Blocking/Flattened sets examined", n))
+}
+
+func isFuncInfoField(c *ctx.Ctx, rel string, se *ast.SelectorExpr) bool {
+	p := c.Pkg(rel)
+	if p == nil {
+		return false
+	}
+	tv, ok := p.TypesInfo.Types[se.X]
+	return ok && strings.HasSuffix(strings.TrimPrefix(tv.Type.String(), "*"), "analysis.FuncInfo")
+}
+
+// ruleKeepNames: the runtime overlay recognises frames of the prelude by function NAME in JavaScript stack
+// traces ("$goroutine" marks the bottom of a goroutine, "$callDeferred" is hidden). The minifier renames
+// prelude locals unless it is told to keep the names.
+func ruleKeepNames(c *ctx.Ctx, r *core.Reporter) {
+	r.Begin("C16.keep-names", "F-LINK", "Filter.WriteJS sets esbuild's KeepNames whenever it minifies identifiers, because the runtime overlay looks prelude functions up by name in stack traces", 1)
+	if !needPrelude(c, r) {
+		return
+	}
+	nat := c.Natives()
+	named := 0
+	for _, f := range nat.PkgFiles("runtime") {
+		if f.Test {
+			continue
+		}
+		ast.Inspect(f.AST, func(x ast.Node) bool {
+			if bl, ok := x.(*ast.BasicLit); ok && bl.Kind == token.STRING && strings.HasPrefix(bl.Value, `"$`) {
+				name := strings.Trim(bl.Value, `"`)
+				for _, pf := range c.PreludeList() {
+					if strings.Contains(pf.Source, "var "+name+" =") || strings.Contains(pf.Source, "function "+name+"(") {
+						named++
+						break
+					}
+				}
+			}
+			return true
+		})
+	}
+	if named == 0 {
+		r.Info("no-name-lookups", nativesRootRel+"/runtime", "the runtime overlay no longer refers to prelude functions by name: KeepNames is free")
+		return
+	}
+	fd := c.FuncDecl("internal/sourcemapx", "Filter.WriteJS")
+	if fd == nil {
+		r.Undecided("WriteJS", "internal/sourcemapx/filter.go", "not found")
+		return
+	}
+	ok := false
+	for _, m := range findGoPattern(fd.Body, `µo.MinifyIdentifiers = true`) {
+		gs := guardsAt(fd.Body, m.Node.Pos())
+		for _, m2 := range findGoPattern(fd.Body, `µo.KeepNames = true`) {
+			if m2.Env["µo"] == m.Env["µo"] && len(guardsAt(fd.Body, m2.Node.Pos())) == len(gs) {
+				ok = true
+			}
+		}
+	}
+	r.Check(ok, "keepnames-with-minify", c.Pos(fd.Pos()), fmt.Sprintf("next to `MinifyIdentifiers = true`, under the same condition, `KeepNames = true` (the runtime overlay names %d prelude function(s) in string literals, e.g. \"$goroutine\" → runtime.goexit)", named))
+}
+
+// ruleC17NoPosOrder: token.Pos values are offsets into the FileSet in the order the files were ADDED to it,
+// i.e. the order they were listed or discovered in. Ordering files (or anything across files) by Pos
+// re-imports exactly the dependence the name sort of Sources.Sort removes.
+func ruleC17NoPosOrder(c *ctx.Ctx, r *core.Reporter) {
+	r.Begin("C17.no-pos-order", "F-DET", "no sort on the compile path orders *ast.File values by their token.Pos", 1)
+	n := 0
+	for _, p := range c.ModulePkgs("compiler", "build", "internal") {
+		for _, f := range p.Syntax {
+			if c.IsTestFile(f.Pos()) {
+				continue
+			}
+			ast.Inspect(f, func(x ast.Node) bool {
+				ce, ok := x.(*ast.CallExpr)
+				if !ok || len(ce.Args) < 2 {
+					return true
+				}
+				se, ok := ce.Fun.(*ast.SelectorExpr)
+				if !ok || !(exprStr(se.X) == "sort" || exprStr(se.X) == "slices") || !strings.HasPrefix(se.Sel.Name, "S") {
+					return true
+				}
+				fl, ok := ce.Args[len(ce.Args)-1].(*ast.FuncLit)
+				if !ok {
+					return true
+				}
+				n++
+				bad := ""
+				ast.Inspect(fl.Body, func(y ast.Node) bool {
+					be, ok := y.(*ast.BinaryExpr)
+					if !ok || (be.Op != token.LSS && be.Op != token.GTR && be.Op != token.LEQ && be.Op != token.GEQ) {
+						return true
+					}
+					for _, side := range []ast.Expr{be.X, be.Y} {
+						call, ok := ast.Unparen(side).(*ast.CallExpr)
+						if !ok {
+							continue
+						}
+						s2, ok := call.Fun.(*ast.SelectorExpr)
+						if !ok || (s2.Sel.Name != "Pos" && s2.Sel.Name != "End") {
+							continue
+						}
+						if tv, ok := p.TypesInfo.Types[s2.X]; ok && strings.HasSuffix(tv.Type.String(), "ast.File") {
+							bad = exprStr(be)
+						}
+					}
+					return true
+				})
+				r.Check(bad == "", fmt.Sprintf("sort:%s#%d", strings.TrimPrefix(p.PkgPath, ctx.Module+"/"), n), c.Pos(ce.Pos()), ternary(bad == "", "the comparison does not order files by position", "`"+bad+"` orders files by token.Pos, which is the order they were parsed in (the listing order on the command line)"))
+				return true
+			})
+		}
+	}
+	r.Check(n >= 1, "sorts", "compiler", fmt.Sprintf("%d sorts with a comparison function examined", n))
+}
+
+// ruleC13PoolNil: sync.Pool.Put(nil) is a no-op ("if x == nil { return }" is the first statement of the
+// original); the sequential replacement must drop nil as well, or Get returns nil instead of calling New.
+func ruleC13PoolNil(c *ctx.Ctx, r *core.Reporter) {
+	r.Begin("C13.pool-nil", "F-SIB", "nosync.Pool.Put begins with the nil guard that sync.Pool.Put begins with", 1)
+	fd := c.FuncDecl("nosync", "Pool.Put")
+	if fd == nil {
+		r.Undecided("nosync.Pool.Put", "nosync/pool.go", "not found")
+		return
+	}
+	param := firstParamName(fd)
+	// the original: first statement of sync.(*Pool).Put in GOROOT
+	origHas := false
+	if sp := c.All["sync"]; sp != nil {
+		for _, f := range sp.Syntax {
+			for _, d := range f.Decls {
+				if x, ok := d.(*ast.FuncDecl); ok && x.Name.Name == "Put" && x.Recv != nil && x.Body != nil && strings.Contains(exprStr(x.Recv.List[0].Type), "Pool") && len(x.Body.List) > 0 {
+					if is, ok := x.Body.List[0].(*ast.IfStmt); ok && strings.HasSuffix(exprStr(is.Cond), "== nil") {
+						origHas = true
+					}
+				}
+			}
+		}
+	}
+	if !origHas {
+		r.Info("sync.Pool.Put", "GOROOT/src/sync/pool.go", "the original no longer starts with a nil guard (or sync is not loaded with syntax): nothing to agree with")
+		r.Check(true, "put:nil-dropped", c.Pos(fd.Pos()), "not required by the original")
+		return
+	}
+	ok := false
+	if len(fd.Body.List) > 0 {
+		if is, isIf := fd.Body.List[0].(*ast.IfStmt); isIf && exprStr(is.Cond) == param+" == nil" && len(is.Body.List) == 1 {
+			if rs, isRet := is.Body.List[0].(*ast.ReturnStmt); isRet && len(rs.Results) == 0 {
+				ok = true
+			}
+		}
+	}
+	r.Check(ok, "put:nil-dropped", c.Pos(fd.Pos()), "Put returns at once for a nil argument, like sync.Pool.Put (otherwise Put(nil); Get() yields nil where sync.Pool calls New)")
+}
+
+// ruleC11SeenCache: the cycle cache of $internalize maps (Go type, JavaScript value) to the Go value under
+// construction. The same JavaScript object internalised at two Go types (map[string]any and
+// map[string]string, or an `any` slot and a typed one) needs two results; a cache keyed by the value alone
+// hands the first one out for both.
+func ruleC11SeenCache(c *ctx.Ctx, r *core.Reporter) {
+	r.Begin("C11.seen-cache", "F-KEY", "every access to the top level of $internalize's `seen` cache is keyed by the type parameter; values are looked up in the per-type table", 3)
+	if !needPrelude(c, r) {
+		return
+	}
+	fn := c.PreludeFunc("$internalize")
+	if fn == nil {
+		r.Undecided("$internalize", "compiler/prelude/jsmapping.js", "not found")
+		return
+	}
+	ps := fn.L("params")
+	if len(ps) < 4 {
+		r.Undecided("params", fn.Pos(), "unexpected parameter list")
+		return
+	}
+	v, t, seen := ps[0].IdentName(), ps[1].IdentName(), ps[3].IdentName()
+	n := 0
+	fn.Walk(func(x *ctx.JSNode) bool {
+		if !x.Is("CallExpression") {
+			return true
+		}
+		cal := x.N("callee")
+		m := cal.MemberName()
+		if (m != "has" && m != "get" && m != "set") || cal.N("object").IdentName() != seen || len(x.L("arguments")) == 0 {
+			return true
+		}
+		n++
+		k := x.L("arguments")[0].IdentName()
+		r.Check(k == t, fmt.Sprintf("seen-keyed-by-type#%d", n), x.Pos(), fmt.Sprintf("`%s`: the top level of the cache is keyed by the type `%s`%s", squash(x.Src()), t, ternary(k == v, " — keyed by the JavaScript value alone, one object read at two Go types yields the first type's representation twice", "")))
+		return true
+	})
+	r.Check(n >= 3, "sites", fn.Pos(), fmt.Sprintf("%d accesses to the top level of the cache", n))
+}
+
+// ruleC12BlankSpecKept: an original `var a, b = f()` loses the names an overlay overrides (they become `_`);
+// the whole specification goes only when that emptied it. A specification that was all blank to begin with
+// (`var _, _ = f()`, `var _ T`) names nothing an overlay could override and keeps its initialiser.
+func ruleC12BlankSpecKept(c *ctx.Ctx, r *core.Reporter) {
+	r.Begin("C12.blank-spec", "F-MUST", "in the single-call branch of augmentOriginalFile a value specification is removed only under a flag that is set where one of its names was found in the override table", 1)
+	fd := c.FuncDecl("build", "augmentOriginalFile")
+	if fd == nil {
+		r.Undecided("augmentOriginalFile", "build/build.go", "not found")
+		return
+	}
+	ok, flagSet := false, false
+	for _, m := range findGoPattern(fd.Body, "µf := false; for _, µn := range µs.Names { if _, µok := µo[µn.Name]; µok { µµa } }; if µf { µµc }") {
+		ok = true
+		flag := m.Env["µf"]
+		for _, m2 := range findGoPattern(fd.Body, "if _, µok := µo[µn.Name]; µok { µµa; "+flag+" = true; µµb }") {
+			_ = m2
+			flagSet = true
+		}
+		for _, m2 := range findGoPattern(fd.Body, "if _, µok := µo[µn.Name]; µok { "+flag+" = true; µµb }") {
+			_ = m2
+			flagSet = true
+		}
+	}
+	r.Check(ok && flagSet, "remove-only-if-a-name-was-overridden", c.Pos(fd.Pos()), "`removed := false; for names { if overridden { removed = true; name = _ } }; if removed { …drop the specification when all names are blank… }` — without the flag every all-blank specification of the original (`var _, _ = register()`) is deleted with its initialiser")
+}
+
+// ruleC15IdKey: pointers and channels are keyed by an id attached on first use. "Not yet assigned" has to
+// be told from every id that was assigned: with a falsiness test (`!x.$id`) the id 0 is assigned again on
+// the next hash, and the entry stored under "0" is orphaned.
+func ruleC15IdKey(c *ctx.Ctx, r *core.Reporter) {
+	r.Begin("C15.id-key", "F-MUST", "$idKey assigns an id exactly when x.$id is undefined, or never hands out a falsy id", 1)
+	if !needPrelude(c, r) {
+		return
+	}
+	fn := c.PreludeFunc("$idKey")
+	if fn == nil {
+		r.Undecided("$idKey", "compiler/prelude/types.js", "not found")
+		return
+	}
+	ok, why := false, "no `if` that assigns $id"
+	fn.Walk(func(x *ctx.JSNode) bool {
+		if !x.Is("IfStatement") {
+			return true
+		}
+		assigns := false
+		var rhs *ctx.JSNode
+		x.N("consequent").Walk(func(y *ctx.JSNode) bool {
+			if y.Is("AssignmentExpression") && y.N("left").MemberName() == "$id" {
+				assigns = true
+				rhs = y.N("right")
+			}
+			return true
+		})
+		if !assigns {
+			return true
+		}
+		t := squash(x.N("test").Src())
+		switch {
+		case strings.HasSuffix(t, ".$id===undefined") || strings.HasPrefix(t, "undefined==="):
+			ok = true
+		case strings.HasPrefix(t, "!") && rhs != nil && rhs.Is("UpdateExpression") && rhs.B("prefix") && rhs.S("operator") == "++":
+			ok = true // ids start at 1
+		default:
+			why = "the test is `" + t + "` and the id assigned is `" + squash(rhs.Src()) + "`"
+		}
+		return true
+	})
+	r.Check(ok, "id-assigned-once", fn.Pos(), "an object keeps the id it was given"+ternary(ok, "", " ("+why+": the first id is 0, which the falsiness test takes for `none`, so the first pointer or channel used as a key is re-keyed on its second hash)"))
+}
+
+// ruleC02DeferredSuspendFirst: after a deferred call returns, $callDeferred has two things to look at: did
+// the call suspend (its result carries $blk) and has the panic been recovered. A call that recovered AND
+// suspended has to be resumed before the frame goes on, so the suspension is examined first.
+func ruleC02DeferredSuspendFirst(c *ctx.Ctx, r *core.Reporter) {
+	r.Begin("C02.deferred-suspend-first", "F-PAIR", "in $callDeferred the test for a suspended deferred call (r.$blk) precedes the test for a recovered panic", 1)
+	if !needPrelude(c, r) {
+		return
+	}
+	fn := c.PreludeFunc("$callDeferred")
+	if fn == nil {
+		r.Undecided("$callDeferred", "compiler/prelude/goroutines.js", "not found")
+		return
+	}
+	posBlk, posRec := -1, -1
+	fn.Walk(func(x *ctx.JSNode) bool {
+		if !x.Is("IfStatement") {
+			return true
+		}
+		t := squash(x.N("test").Src())
+		if strings.Contains(t, ".$blk!==undefined") && posBlk < 0 {
+			posBlk = x.Start
+		}
+		if strings.Contains(t, "$panicStackDepth===null") && posRec < 0 {
+			posRec = x.Start
+		}
+		return true
+	})
+	r.Check(posBlk >= 0 && posRec >= 0 && posBlk < posRec, "suspended-before-recovered", fn.Pos(), "`if (r && r.$blk !== undefined) { deferred.push(…); … }` comes before `if (… $panicStackDepth === null) { /* recovered */ … }`: a deferred function that recovers and then suspends is pushed back to be resumed; the other way round the rest of its body is lost")
+}
+
+// ruleC04LitInfo: a function literal inside a generic function is analysed once per instantiation; the
+// translator has to ask for the analysis of ITS instantiation — the type arguments of the enclosing named
+// instance, which funcContext.TypeArgs() finds through the parents (a literal's own instance has none) —
+// and the lookup must not fall back to some other instantiation's result.
+func ruleC04LitInfo(c *ctx.Ctx, r *core.Reporter) {
+	r.Begin("C04.lit-info", "F-KEY", "literalFuncContext asks FuncLitInfo with fc.TypeArgs(); FuncLitInfo returns an entry only when its type arguments are equal to the ones asked for", 2)
+	lf := c.FuncDecl("compiler", "funcContext.literalFuncContext")
+	if lf == nil {
+		r.Undecided("literalFuncContext", "compiler/functions.go", "not found")
+	} else {
+		r.Check(hasGoPattern(lf.Body, `µfc.pkgCtx.FuncLitInfo(µfun, µfc.TypeArgs())`), "lit-info:args-from-enclosing-instance", c.Pos(lf.Pos()), "the analysis of a literal is looked up with fc.TypeArgs() (the type arguments of the nearest enclosing generic instance; fc.instance.TArgs of a literal's own context is empty)")
+	}
+	fi := c.FuncDecl("compiler/internal/analysis", "Info.FuncLitInfo")
+	if fi == nil {
+		r.Undecided("FuncLitInfo", "compiler/internal/analysis/info.go", "not found")
+		return
+	}
+	bad := ""
+	ast.Inspect(fi.Body, func(x ast.Node) bool {
+		rs, ok := x.(*ast.ReturnStmt)
+		if !ok || len(rs.Results) != 1 || exprStr(rs.Results[0]) == "nil" {
+			return true
+		}
+		guarded := false
+		for _, g := range guardsAt(fi.Body, rs.Pos()) {
+			if !g.Negated && strings.Contains(exprStr(g.Cond), ".Equal(") {
+				guarded = true
+			}
+		}
+		if !guarded {
+			bad = nodeString(c, rs)
+		}
+		return true
+	})
+	r.Check(bad == "", "lit-info:match-only", c.Pos(fi.Pos()), "every non-nil result of FuncLitInfo is returned under `<entry>.typeArgs.Equal(typeArgs)`"+ternary(bad != "", " (`"+bad+"` hands out an entry of whatever instantiation was analysed first: its blocking marks are wrong for the others)", ""))
+}
